@@ -276,52 +276,97 @@ def wtf8_boundary_validators(ctx, rule):
         ctx.ob(rule, "wtf8-%s-empty-or-meaningful" % fn, bad is None and {"empty", "meaning"} <= seen, bad or "empty, or futf classifies the code point at the boundary as meaningful", "tendril fmt WTF8::" + fn)
 
 
-def ascii_bound(ctx, rule):
-    """the ASCII format: validate accepts exactly the bytes 0..=0x7F, and encode_char accepts exactly the characters 0..=0x7F (its
-    one comparison, evaluated on both sides of the boundary): a byte >= 0x80 in an ASCII tendril makes its free view as UTF-8
-    invalid"""
-    from . import predtable as pt
-    its = [x for x in ctx.ast.walkable("tendril") if x["k"] == "Fn" and x["name"] == "encode_char" and "ASCII" in (x.get("self_ty") or "") and x.get("body") is not None]
-    if len(its) != 1:
-        raise AnchorMissing("ASCII::encode_char")
+def _range_test(ctx, fn_item, bound=None):
+    """the single `if <number> <cmp> <constant> { Err }` of a function body, as (python expression, variable, constants, then_is_err);
+    None when the body has no such test.  `bound`: parameter name -> literal value at the call site"""
     from lib.ast import walk
     conds = []
 
     def f(n):
         if n.get("k") == "If" and n["cond"].get("k") == "Binary" and n["cond"]["op"] in ("<", ">", "<=", ">=", "==", "!="):
             conds.append(n)
-    walk(its[0]["body"], f)
-    bad = None
+    walk(fn_item["body"], f)
     if len(conds) != 1:
-        bad = "encode_char has %d comparisons; expected the single range test" % len(conds)
-    else:
-        c = conds[0]["cond"]
-        names = []
+        return None
+    c = conds[0]["cond"]
+    names = []
 
-        def g(n):
-            if n.get("k") == "Path" and "::" not in n["path"] and n["path"] not in names:
-                names.append(n["path"])
-        walk(c, g)
-        var = [x for x in names if not x.isupper()]
-        consts = {}
-        for x in names:
-            if x.isupper():
-                try:
-                    consts[x] = int(_const_val(ctx, x))
-                except Exception:
-                    pass
-        e = _py_expr_cmp(c, var[:1] + list(consts))
-        if e is None or len(var) != 1:
-            bad = "the range test of encode_char is not a comparison of the character's number with a constant"
-        else:
-            then_err = "Err" in str(conds[0]["then"])
-            for n in (0, 0x41, 0x7E, 0x7F, 0x80, 0x81, 0xFF, 0x100, 0x10FFFF):
-                env = dict(consts)
-                env[var[0]] = n
-                rejected = bool(eval(e, {}, env)) if then_err else not bool(eval(e, {}, env))
-                if rejected != (n > 0x7F):
-                    bad = "encode_char %s U+%04X; ASCII is U+0000..=U+007F" % ("rejects" if rejected else "accepts", n)
-                    break
+    def g(n):
+        if n.get("k") == "Path" and "::" not in n["path"] and n["path"] not in names:
+            names.append(n["path"])
+    walk(c, g)
+    consts = dict(bound or {})
+
+    def lets(n):
+        # `let max = 0x7F;` - how a written-out helper call binds a literal argument to the helper's parameter
+        if n.get("k") == "Let" and (n.get("pat") or {}).get("k") == "PIdent" and n.get("init") is not None:
+            v = _py_expr(n["init"], [])
+            if v is not None and n["pat"]["name"] in names:
+                consts.setdefault(n["pat"]["name"], eval(v))
+    walk(fn_item["body"], lets)
+    for x in names:
+        if x.isupper():
+            try:
+                consts[x] = int(_const_val(ctx, x))
+            except Exception:
+                pass
+    var = [x for x in names if x not in consts]
+    e = _py_expr_cmp(c, var[:1] + list(consts))
+    if e is None or len(var) != 1:
+        return None
+    return e, var[0], consts, "Err" in str(conds[0]["then"])
+
+
+def ascii_bound(ctx, rule):
+    """the ASCII format: validate accepts exactly the bytes 0..=0x7F, and encode_char accepts exactly the characters 0..=0x7F: its
+    one range test (its own, or that of the private helper it hands the character and a literal bound to) is evaluated on both
+    sides of the boundary.  A byte >= 0x80 in an ASCII tendril makes its free view as UTF-8 invalid"""
+    from lib.ast import walk
+    fns = {}
+    for x in ctx.ast.walkable("tendril"):
+        if x["k"] == "Fn" and x.get("body") is not None:
+            fns.setdefault(x["name"], []).append(x)
+    its = [x for x in fns.get("encode_char", []) if "ASCII" in (x.get("self_ty") or "")]
+    if len(its) != 1:
+        raise AnchorMissing("ASCII::encode_char")
+    t = _range_test(ctx, its[0])
+    if t is None:
+        # the test may live in a helper that gets the character and the bound
+        calls = []
+
+        def f(n):
+            if n.get("k") == "Call" and (n.get("f") or {}).get("k") == "Path":
+                nm = n["f"]["path"].split("::")[-1]
+                if nm in fns and len(fns[nm]) == 1 and nm != "encode_char":
+                    calls.append((fns[nm][0], n["args"]))
+        walk(its[0]["body"], f)
+        for callee, args in calls:
+            ps = [p_["pat"]["name"] for p_ in callee["sig"]["params"] if (p_.get("pat") or {}).get("k") == "PIdent"]
+            bound = {}
+            for pn, a in zip(ps, args):
+                v = _py_expr(a, [])
+                if v is not None:
+                    bound[pn] = eval(v)
+                elif a.get("k") == "Path" and a["path"].isupper():
+                    try:
+                        bound[pn] = int(_const_val(ctx, a["path"]))
+                    except Exception:
+                        pass
+            t = _range_test(ctx, callee, bound)
+            if t is not None:
+                break
+    bad = None
+    if t is None:
+        bad = "encode_char's range test cannot be found (neither in the function nor in a helper it passes a literal bound to)"
+    else:
+        e, var, consts, then_err = t
+        for n in (0, 0x41, 0x7E, 0x7F, 0x80, 0x81, 0xFF, 0x100, 0x10FFFF):
+            env = dict(consts)
+            env[var] = n
+            rejected = bool(eval(e, {}, env)) if then_err else not bool(eval(e, {}, env))
+            if rejected != (n > 0x7F):
+                bad = "encode_char %s U+%04X; ASCII is U+0000..=U+007F" % ("rejects" if rejected else "accepts", n)
+                break
     ctx.ob(rule, "ascii-encode_char-bound", bad is None, bad or "accepts exactly U+0000..=U+007F", "tendril fmt ASCII::encode_char")
     key, pcs = nfq.cells(ctx, AREA, "fmt::ASCII[Format]::validate")
     bad = None
